@@ -22,6 +22,7 @@ class ConclusionSelector(LogicalOperator, ABC):
     they are not duplicated across truth branches.
     """
     concluded_before: Dict[typing.Any, SeenSet] = field(default_factory=dict, init=False)
+    _concluded_now_: Optional[typing.Tuple[SeenSet, Dict]] = field(default=None, init=False)
     _selects_conclusions_: typing.ClassVar[bool] = True
 
     def update_conclusion(self, output: Dict[int, HashedValue], conclusions: typing.Set[Conclusion]) -> None:
@@ -39,6 +40,27 @@ class ConclusionSelector(LogicalOperator, ABC):
         if not concluded_before.check(required_output):
             self._conclusion_.update(conclusions)
             concluded_before.add(required_output)
+            self._concluded_now_ = (concluded_before, required_output)
+
+    def _clear_conclusion_(self) -> None:
+        """
+        The current output has been consumed: what was selected for it is not selected any more.
+        """
+        self._conclusion_.clear()
+        self._concluded_now_ = None
+
+    def _retract_conclusion_(self) -> None:
+        """
+        The conclusion selected for the current output was replaced by a refinement further up, so it is not drawn:
+        forget that it was concluded, such that it is drawn for a later output with the same binding of its variables.
+        """
+        if self._concluded_now_ is not None:
+            concluded_before, required_output = self._concluded_now_
+            concluded_before.discard(required_output)
+            self._concluded_now_ = None
+        for operand in (self.left, self.right):
+            if operand._selects_conclusions_:
+                operand._retract_conclusion_()
 
     def _reset_only_my_cache_(self) -> None:
         super()._reset_only_my_cache_()
@@ -116,15 +138,18 @@ class ExceptIf(ConclusionSelector):
             right_yielded = False
             for right_value in self.right._evaluate__(left_value, yield_when_false=False):
                 right_yielded = True
+                if self.left._selects_conclusions_:
+                    # The refinement replaces whatever the refined rule selected for this output.
+                    self.left._retract_conclusion_()
                 self._conclusion_.update(self.right._conclusion_)
                 output = left_value.copy()
                 output.update(right_value)
                 yield output
-                self._conclusion_.clear()
+                self._clear_conclusion_()
             if not right_yielded:
                 self._conclusion_.update(self.left._conclusion_)
                 yield left_value
-                self._conclusion_.clear()
+                self._clear_conclusion_()
 
 
 @dataclass(eq=False)
@@ -153,7 +178,7 @@ class Alternative(ElseIf, ConclusionSelector):
             elif right_is_true:
                 self.update_conclusion(output, self.right._conclusion_)
             yield output
-            self._conclusion_.clear()
+            self._clear_conclusion_()
 
 
 @dataclass(eq=False)
@@ -170,4 +195,4 @@ class Next(EQLUnion, ConclusionSelector):
             if self.right_evaluated:
                 self.update_conclusion(output, self.right._conclusion_)
             yield output
-            self._conclusion_.clear()
+            self._clear_conclusion_()
